@@ -160,6 +160,15 @@ type c20Case struct {
 	Runs   []string  `json:"runs,omitempty"`   // C07: dynamic types of the START values to run with
 	SRuns  bool      `json:"streamRuns,omitempty"` // C07: every run also through Stream (output drained)
 	Extra  *c20WfExt `json:"wf,omitempty"`
+	// C20 (c20_keys.go): compile only, do not run the runnable; fact values the oracle is to use
+	// instead of the expected ones (hand-made replays against a tree that has the other value)
+	NoRun  bool          `json:"noRun,omitempty"`
+	KFacts *c20KFactsOvr `json:"kfacts,omitempty"`
+}
+
+type c20KFactsOvr struct {
+	HelperNilSafe         bool `json:"helperNilSafe"`
+	CompileChecksOwnTypes bool `json:"compileChecksOwnTypes"`
 }
 
 // c20WfExt: how the workflow side is built (the lowered form is in Ops)
@@ -179,6 +188,9 @@ type c20WfNode struct {
 	Out string    `json:"out,omitempty"`
 	Dyn string    `json:"dyn,omitempty"`
 	Ins []c20WfIn `json:"ins"`
+	// C20 (c20_keys.go): the node is added with WithInputKey("k") / WithOutputKey("k")
+	InKey  bool `json:"inKey,omitempty"`
+	OutKey bool `json:"outKey,omitempty"`
 }
 
 type c20WfIn struct {
